@@ -90,6 +90,7 @@ def stream_layout(seed, tier):
         # the block is sized for exactly N elements and B payload bytes: fill it to exactly that, in several ways
         for mode in ((0, 1, 2, 3) if tier == "quick" else (0, 0, 0, 1, 2, 2, 3, 3)):
             out.append((c, gen.gen_tight_fill(rng, c, mode)))
+        out.append((c, gen.gen_capacity_sweep(rng, c)))
     # element-wise relocation (non-trivial value types): equal element sizes keep it free of the known overlap, so that
     # the layout after erase in the middle is compared object by object
     for c in [c for c in gen.CORPUS if c.tracked()]:
@@ -134,7 +135,7 @@ def stream_alloc(seed, tier):
     # the assignment matrix runs on lists of every category with trivial and tracked value types, under the trait
     # combinations that select different code paths (non-propagating unequal, POCMA, POCCA, always-equal)
     matrix_base = [c for c in base if c.name in ("onevarying", "twofixed", "alignedvarying", "trk-fixed", "trk-varying", "trk-mixed",
-                                                  "s-OneFixedUniquePtr", "s-OneVaryingUniquePtr", "s-TwoFixedAligned", "plain")]
+                                                  "s-OneFixedUniquePtr", "s-OneVaryingUniquePtr", "s-TwoFixedAligned", "plain", "trc-mixed-trivial", "trc-varying")]
     matrix_cfgs = [gen.Cfg(c.name + "-" + a, c.params, a) for c in matrix_base for a in (("0000", "0100", "1000", "0001") if tier == "quick" else ALLOCS)]
     out = []
     # systematic part: every assignment / copy / move / swap direction between a small and a large vector of two allocators
@@ -242,9 +243,12 @@ def stream_faults(seed, tier):
 
 STREAMS = {
     "C17": stream_faults,
-    "C11": stream_refiter, "C12": stream_element,
+    "C11": lambda seed, tier: stream_refiter(seed, tier) + stream_element(seed, tier), "C12": stream_element,
     "C13": stream_compare, "C14": stream_compare,
-    "C01": stream_history, "C02": stream_layout, "C03": stream_layout, "C04": stream_layout,
+    "C01": stream_history,
+    "C02": lambda seed, tier: stream_layout(seed, tier) + stream_alloc(seed, tier),
+    "C03": lambda seed, tier: stream_layout(seed, tier) + stream_element(seed, tier),
+    "C04": lambda seed, tier: stream_layout(seed, tier) + stream_refiter(seed, tier),
     "C05": lambda seed, tier: stream_layout(seed, tier) + stream_alloc(seed, tier),
     "C06": lambda seed, tier: stream_history(seed, tier) + stream_alloc(seed, tier) + stream_element(seed, tier),
     "C10": stream_history,
